@@ -11,7 +11,9 @@ Local Open Scope Q_scope.
 
 (* ---------- the LP oracle ---------- *)
 Definition row := (list Q * Q)%type.                           (* coefficients, bound :  a·x <= b *)
-Record lp_problem := mkLP { lp_obj : list Q; lp_rows : list row }.   (* minimise obj·x, x free *)
+(* minimise obj·x, x free; lp_vars names the columns (dict insertion order is not observable in pacti,
+   so the replay oracle matches recorded problems up to a permutation of the named columns) *)
+Record lp_problem := mkLP { lp_vars : list var; lp_obj : list Q; lp_rows : list row }.
 Inductive lp_answer :=
 | LpOpt (fun_ : Q) (slack : list Q)      (* status 0 *)
 | LpInfeasible                            (* status 2 *)
@@ -23,52 +25,63 @@ Definition oracle := lp_problem -> lp_answer.
 (* ---------- matrices ---------- *)
 (* PolyhedralTerm.term_to_polytope *)
 Definition term_to_row (vs : list var) (t : pterm) : row := (map (get_coefficient t) vs, tconst t).
+Definition all_have_vars (ts : list pterm) : bool := forallb (fun t => nonempty (term_vars_p t)) ts.
 (* variable order of termlist_to_polytope *)
 Definition polytope_vars (terms ctx : list pterm) : list var := list_union (tl_vars terms) (tl_vars ctx).
 (* PolyhedralTerm.polytope_to_term / polytope_to_termlist *)
 Definition row_to_term (vs : list var) (r : row) : pterm := mk_term (combine vs (fst r)) (snd r).
 
-(* a term without variables makes numpy shapes degenerate; outside the model (DESIGN 6) *)
-Definition all_have_vars (ts : list pterm) : bool := forallb (fun t => nonempty (term_vars_p t)) ts.
-Definition unmodelled {A} : M A := raise (Escape "unmodelled: constraint without variables").
-
+(* A system over NO variable at all (every term is constant-only) makes the numpy shapes
+   degenerate (m = 0); what the code does then is modelled case by case below. *)
 (* ---------- reduce_polytope ---------- *)
 (* the while-loop: `kept` are the rows before index i, `rest` the rows from i on *)
-Fixpoint reduce_loop (O : oracle) (kept rest ctx : list row) : M (list row) :=
+Fixpoint reduce_loop (O : oracle) (vs : list var) (kept rest ctx : list row) : M (list row) :=
   match rest with
   | [] => ret kept
   | (a, b) :: rest' =>
-      let prob := mkLP (map qneg a) (kept ++ (a, qadd b 1) :: rest' ++ ctx) in
+      let prob := mkLP vs (map qneg a) (kept ++ (a, qadd b 1) :: rest' ++ ctx) in
       match O prob with
-      | LpUnbounded => reduce_loop O kept rest' ctx
-      | LpOpt f _ => if qle (qneg f) b then reduce_loop O kept rest' ctx
-                     else reduce_loop O (kept ++ [(a, b)]) rest' ctx
+      | LpUnbounded => reduce_loop O vs kept rest' ctx
+      | LpOpt f _ => if qle (qneg f) b then reduce_loop O vs kept rest' ctx
+                     else reduce_loop O vs (kept ++ [(a, b)]) rest' ctx
       | LpInfeasible => raise ValueErr
-      | LpOther _ => reduce_loop O (kept ++ [(a, b)]) rest' ctx     (* status 1/4: neither branch fires, row kept *)
+      | LpOther _ => reduce_loop O vs (kept ++ [(a, b)]) rest' ctx     (* status 1/4: neither branch fires, row kept *)
       | LpMiss => raise OracleMiss
       end
   end.
-Definition reduce_polytope (O : oracle) (rows ctx : list row) : M (list row) :=
+Definition reduce_polytope (O : oracle) (vs : list var) (rows ctx : list row) : M (list row) :=
   match rows with
   | [] => ret []
-  | [r] => match ctx with [] => ret [r] | _ => reduce_loop O [] rows ctx end
-  | _ => reduce_loop O [] rows ctx
+  | [r] => match ctx with [] => ret [r] | _ => reduce_loop O vs [] rows ctx end
+  | _ => reduce_loop O vs [] rows ctx
   end.
 
 (* ---------- simplify ---------- *)
 Definition poly_simplify (O : oracle) (self : list pterm) (context : option (list pterm)) : M (list pterm) :=
   let ctx := opt_list context in
   let new_self := match context with Some c => list_diff self c | None => self end in
-  if negb (all_have_vars new_self && all_have_vars ctx) then unmodelled else
   let vs := polytope_vars new_self ctx in
-  red <- reduce_polytope O (map (term_to_row vs) new_self) (map (term_to_row vs) ctx) ;;
-  ret (map (row_to_term vs) red).
+  match vs with
+  | [] =>
+      (* m = 0 *)
+      match ctx, new_self with
+      | _ :: _, _ => raise (Escape "AssertionError")       (* assert len(b_help) == 0 *)
+      | [], [] => ret []
+      | [], [t] => ret [row_to_term vs (term_to_row vs t)]
+      | [], _ => raise ValueErr                            (* linprog rejects the empty objective: ValueError *)
+      end
+  | _ =>
+      red <- reduce_polytope O vs (map (term_to_row vs) new_self) (map (term_to_row vs) ctx) ;;
+      ret (map (row_to_term vs) red)
+  end.
 
 (* ---------- emptiness ---------- *)
-Definition is_polytope_empty (O : oracle) (m : nat) (rows : list row) : M bool :=
+Definition is_polytope_empty (O : oracle) (vs : list var) (rows : list row) : M bool :=
+  let m := List.length vs in
   match rows with
   | [] => ret false
-  | _ => match O (mkLP (repeat 0 m) rows) with
+  | _ => if Nat.eqb m 0 then ret false else      (* n * m == 0 *)
+         match O (mkLP vs (repeat 0 m) rows) with
          | LpInfeasible => ret true
          | LpOpt _ _ | LpUnbounded => ret false
          | LpOther _ => raise ValueErr
@@ -76,57 +89,58 @@ Definition is_polytope_empty (O : oracle) (m : nat) (rows : list row) : M bool :
          end
   end.
 Definition poly_is_empty (O : oracle) (self : list pterm) : M bool :=
-  if negb (all_have_vars self) then unmodelled else
   let vs := polytope_vars self [] in
-  is_polytope_empty O (List.length vs) (map (term_to_row vs) self).
+  is_polytope_empty O vs (map (term_to_row vs) self).
 
 (* ---------- containment ---------- *)
 (* b_temp + REFINEMENT_TOLERANCE * (1 + abs(b_temp)) : the constant is read from the source by the translator *)
 Definition tol_bound (b : Q) : Q := qadd b (qmul REFINEMENT_TOLERANCE (qadd 1 (qabs b))).
-Fixpoint containment_loop (O : oracle) (a_l a_r : list row) : M bool :=
+Fixpoint containment_loop (O : oracle) (vs : list var) (a_l a_r : list row) : M bool :=
   match a_r with
   | [] => ret true
   | (a, b) :: rest =>
-      match O (mkLP (map qneg a) (a_l ++ [(a, qadd b 1)])) with
+      match O (mkLP vs (map qneg a) (a_l ++ [(a, qadd b 1)])) with
       | LpInfeasible => ret false
-      | LpOpt f _ => if qle (qneg f) (tol_bound b) then containment_loop O a_l rest else ret false
+      | LpOpt f _ => if qle (qneg f) (tol_bound b) then containment_loop O vs a_l rest else ret false
       | LpUnbounded | LpOther _ => raise (Escape "TypeError")
       | LpMiss => raise OracleMiss
       end
   end.
-Definition verify_polytope_containment (O : oracle) (m : nat) (a_l a_r : list row) : M bool :=
-  el <- is_polytope_empty O m a_l ;;
+Definition verify_polytope_containment (O : oracle) (vs : list var) (a_l a_r : list row) : M bool :=
+  el <- is_polytope_empty O vs a_l ;;
   if el then ret true else
-  er <- is_polytope_empty O m a_r ;;
+  er <- is_polytope_empty O vs a_r ;;
   if er then ret false else
-  containment_loop O a_l a_r.
+  containment_loop O vs a_l a_r.
 (* PolyhedralTermList.refines *)
 Definition poly_refines (O : oracle) (self other : list pterm) : M bool :=
   match other with
   | [] => ret true
   | _ => match self with
          | [] => ret false
-         | _ => if negb (all_have_vars self && all_have_vars other) then unmodelled else
-                let vs := polytope_vars self other in
-                verify_polytope_containment O (List.length vs) (map (term_to_row vs) self) (map (term_to_row vs) other)
+         | _ => let vs := polytope_vars self other in
+                match vs with
+                | [] => raise ValueErr                     (* m = 0: linprog rejects the empty objective *)
+                | _ => verify_polytope_containment O vs (map (term_to_row vs) self) (map (term_to_row vs) other)
+                end
          end
   end.
 
 (* ---------- optimize ---------- *)
 (* PolyhedralTermList.optimize(objective, maximize) : Some v | None (unbounded) *)
 Definition poly_optimize (O : oracle) (self : list pterm) (objective : pvars) (maximize : bool) : M (option Q) :=
-  match self with [] => unmodelled | _ =>
-  if negb (all_have_vars self) then unmodelled else
+  match self with [] => raise ValueErr | _ =>      (* linprog rejects a 1-D empty A_ub: ValueError *)
   let obj := mk_term objective 0 in
   let vs := polytope_vars self [obj] in
+  match vs with [] => raise ValueErr | _ =>
   let polarity := if maximize then -(1) else 1 in
   let c := map (fun q => qmul polarity q) (fst (term_to_row vs obj)) in
-  match O (mkLP c (map (term_to_row vs) self)) with
+  match O (mkLP vs c (map (term_to_row vs) self)) with
   | LpUnbounded => ret None
   | LpOpt f _ => ret (Some (qmul polarity f))
   | LpInfeasible | LpOther _ => raise ValueErr
   | LpMiss => raise OracleMiss
-  end end.
+  end end end.
 
 (* ---------- replay oracle: a finite table of recorded linprog calls ---------- *)
 Definition q_close (tau : Q) (a b : Q) : bool :=
@@ -143,8 +157,21 @@ Fixpoint rows_close (tau : Q) (l1 l2 : list row) : bool :=
   | (a1, b1) :: r1, (a2, b2) :: r2 => qs_close tau a1 a2 && q_close tau b1 b2 && rows_close tau r1 r2
   | _, _ => false
   end.
+(* column j of the recorded problem, looked up by name, for each name of the query *)
+Fixpoint index_of (v : var) (l : list var) (n : nat) : option nat :=
+  match l with [] => None | x :: r => if String.eqb x v then Some n else index_of v r (S n) end.
+Definition permute (from to : list var) (xs : list Q) : option (list Q) :=
+  fold_right (fun v acc => match acc, index_of v from 0 with
+                           | Some l, Some i => Some (nth i xs 0 :: l) | _, _ => None end) (Some []) to.
+Definition permute_rows (from to : list var) (rs : list row) : option (list row) :=
+  fold_right (fun r acc => match acc, permute from to (fst r) with
+                           | Some l, Some a => Some ((a, snd r) :: l) | _, _ => None end) (Some []) rs.
 Definition lp_close (tau : Q) (p1 p2 : lp_problem) : bool :=
-  qs_close tau (lp_obj p1) (lp_obj p2) && rows_close tau (lp_rows p1) (lp_rows p2).
+  Nat.eqb (List.length (lp_vars p1)) (List.length (lp_vars p2)) &&
+  match permute (lp_vars p1) (lp_vars p2) (lp_obj p1), permute_rows (lp_vars p1) (lp_vars p2) (lp_rows p1) with
+  | Some o1, Some r1 => qs_close tau o1 (lp_obj p2) && rows_close tau r1 (lp_rows p2)
+  | _, _ => false
+  end.
 Fixpoint table_oracle (tau : Q) (tbl : list (lp_problem * lp_answer)) (p : lp_problem) : lp_answer :=
   match tbl with
   | [] => LpMiss
